@@ -133,6 +133,11 @@ def execute(prog, how, pol, seed, monitors, rrt_exp=None, fresh_scheduler=True):
             rt.violation("root-outcome-differs-from-reference", {"expected": short(exp), "observed": short(out[:2])})
         for d in compare_frames(rt, rrt):
             rt.violation("task-received-differs-from-reference", {"task": d[0], "what": d[1], "expected": short(d[2]), "observed": short(d[3])})
+    if "refeq" in monitors:
+        for inst, n in rt.lazy_calls.items():
+            rt.n_lazy_checks = getattr(rt, "n_lazy_checks", 0) + 1
+            if n != 1:
+                rt.violation("lazy-future-provider-ran-more-than-once", {"future": inst, "provider_calls": n})
     if "identity" in monitors and out[0] == "exc":
         e = out[2]
         tag = getattr(e, "tag", None)
@@ -167,6 +172,7 @@ COUNTER_ATTRS = [
     "n_completion_checks",
     "n_identity_checks",
     "n_restore_checks",
+    "n_lazy_checks",
     "n_ctx_checks",
     "n_ctx_exclusive",
     "n_ctx_must_be_paused",
